@@ -302,6 +302,10 @@ Theorem C16_gen_add_td : forall o t,
 Proof. exact gen_add_td_correct. Qed.
 Print Assumptions C16_gen_add_td.
 
+Theorem C16_gen_normalized : forall o, gen_normalized o = GOk (obj_of_rd (normalized (rd_of_obj o))).
+Proof. exact gen_normalized_correct. Qed.
+Print Assumptions C16_gen_normalized.
+
 Theorem C16_gen_mul : forall o k, gen_mul o k = GOk (obj_of_rd (mul_int (rd_of_obj o) k)).
 Proof. exact gen_mul_correct. Qed.
 Print Assumptions C16_gen_mul.
@@ -335,6 +339,47 @@ Theorem C16_gen_weekday_eq_total : forall a b, exists r, gen_wd_eq a b = GOk r.
 Proof. exact gen_wd_eq_total. Qed.
 Print Assumptions C16_gen_weekday_eq_total.
 
+Theorem C16_gen_weekday_init : forall w k n, gen_wd_init w k n = GOk (k, n).
+Proof. exact gen_wd_init_correct. Qed.
+Print Assumptions C16_gen_weekday_init.
+
+Theorem C16_gen_weekday_call : forall w n, gen_wd_call w n = GOk (fst w, n).
+Proof. exact gen_wd_call_correct. Qed.
+Print Assumptions C16_gen_weekday_call.
+
 Theorem C16_gen_weekday_hash : forall a, gen_wd_hash a = GOk a.
 Proof. exact gen_wd_hash_correct. Qed.
 Print Assumptions C16_gen_weekday_hash.
+
+(* ======== the whole keyword path of __init__, translated: statements before `yday = 0`
+   (gen_init_head, this translator), the yearday / nlyearday conversion (gen_init_yearday, translated by
+   harness/gen_rd_add.py for C03) and the final _fix, composed in source order, equal the model's
+   constructor -- weeks, weekday=int (IndexError outside -7..6) / weekday object, ValueError for
+   non-integer years / months, invalid year day, carries. *)
+From V Require Import rd.RdAddGenBase gen.RdAddGen rd.RdAddGenThm rd.RdGenInitThm.
+
+Theorem C16_gen_init_head : forall a,
+  gen_init_head a =
+  if negb (q_is_int (fst (ia_years a)) (snd (ia_years a))) || negb (q_is_int (fst (ia_months a)) (snd (ia_months a)))
+  then Err EValue
+  else bind (conv_wd (ia_weekday a)) (fun w => Ok (head_obj a w)).
+Proof. exact gen_init_head_correct. Qed.
+Print Assumptions C16_gen_init_head.
+
+Theorem C16_gen_init_kw : forall a yearday nlyearday,
+  gen_init_kw a yearday nlyearday =
+  lift_rd (mk_frac (fst (ia_years a)) (snd (ia_years a)) (fst (ia_months a)) (snd (ia_months a))
+                   (kw_of_iargs a yearday nlyearday)).
+Proof. exact gen_init_kw_correct. Qed.
+Print Assumptions C16_gen_init_kw.
+
+Theorem C16_gen_init_kw_int : forall a yearday nlyearday,
+  snd (ia_years a) = 1%positive -> snd (ia_months a) = 1%positive ->
+  gen_init_kw a yearday nlyearday =
+  lift_rd (mk (set_ym (kw_of_iargs a yearday nlyearday) (fst (ia_years a)) (fst (ia_months a)))).
+Proof. exact gen_init_kw_int. Qed.
+Print Assumptions C16_gen_init_kw_int.
+
+Theorem C16_gen_init_is_kw : forall o, gen_init_kw (iargs_of_obj o) None None = of_gres (gen_init o).
+Proof. exact gen_init_is_kw. Qed.
+Print Assumptions C16_gen_init_is_kw.
